@@ -762,10 +762,14 @@ class SVG:
 
                 # If we are transformed and we use a gradient we may need to
                 # emit the transformed gradient
-                if context.transform != Affine2D.identity() and "url" in el.attrib.get(
-                    "fill", ""
-                ):
-                    fill_el = self.resolve_url(el.attrib["fill"], "*")
+                # (the same goes for a gradient used as stroke paint: the stroke becomes
+                # a filled outline further down)
+                for paint in ("fill", "stroke"):
+                    if context.transform == Affine2D.identity():
+                        break
+                    if "url" not in el.attrib.get(paint, ""):
+                        continue
+                    fill_el = self.resolve_url(el.attrib[paint], "*")
                     self._apply_gradient_template(fill_el)
                     fill_el = self._transformed_gradient(
                         defs,
@@ -774,7 +778,7 @@ class SVG:
                         from_element(el).bounding_box(),
                     )
                     fill_id = fill_el.attrib["id"]
-                    el.attrib["fill"] = f"url(#{fill_id})"
+                    el.attrib[paint] = f"url(#{fill_id})"
 
                 paths = [from_element(el).as_path().absolute(inplace=True)]
                 initial_path = copy.deepcopy(paths[0])
